@@ -39,8 +39,8 @@ func realVars(t *Term) []int32 {
 // constrained to printable ASCII): materialised once single-variable range
 // constraints bound it to at most 512 values.
 type wideDom struct {
-	cons []*Term  // single-variable conjuncts seen so far
-	lo   int64    // signed bounds derived from comparison patterns
+	cons []*Term // single-variable conjuncts seen so far
+	lo   int64   // signed bounds derived from comparison patterns
 	hi   int64
 	vals []uint64 // explicit domain once small enough (nil before)
 }
